@@ -165,7 +165,44 @@ def elems_text(els):
     return ",".join(one(e) for e in els) if els else "-"
 
 
-SPECIAL_NAMES = ["a.b.c", "ratio.", ".hidden", "stats.v", "v", "hidden", "c", "nosuch.v", "with space", "na\u00efve.\u00e9", "", ".", "..", "b.c"]
+# pairs of names that collide under common 32-bit string hashes: a lookup structure keyed by such a hash must still confirm the name
+HASH_COLLISIONS = [("fnv1a", "costarring", "liquid"), ("fnv1a", "declinate", "macallums"), ("fnv1a", "altarage", "zinke"),
+                   ("fnv1a", "k_4e62", "col48001"), ("fnv1", "col7659", "k_3e4c"), ("djb2", "hetairas", "mentioner"),
+                   ("djb2", "mmozp", "nfzsxz"), ("djb2x", "k_7ff0", "k_8690"), ("sdbm", "dgdbqrvhx", "mjputv"),
+                   ("murmur3_32 seed 0", "col34941", "k_19c7c"), ("xxh32 seed 0", "k_1b19e", "col141341"), ("crc32", "gpfazyks", "mxxbif")]
+
+
+def _h(kind, s):
+    M, b = 0xFFFFFFFF, s.encode()
+    if kind == "fnv1a":
+        h = 0x811C9DC5
+        for c in b: h = ((h ^ c) * 0x01000193) & M
+    elif kind == "fnv1":
+        h = 0x811C9DC5
+        for c in b: h = ((h * 0x01000193) & M) ^ c
+    elif kind == "djb2":
+        h = 5381
+        for c in b: h = (h * 33 + c) & M
+    elif kind == "djb2x":
+        h = 5381
+        for c in b: h = ((h * 33) & M) ^ c
+    elif kind == "sdbm":
+        h = 0
+        for c in b: h = (c + (h << 6) + (h << 16) - h) & M
+    elif kind == "crc32":
+        import zlib
+        h = zlib.crc32(b) & M
+    else:
+        return None
+    return h
+
+
+for _k, _a, _b in HASH_COLLISIONS:      # the tabulated pairs are re-computed where the hash is cheap to state
+    assert _a != _b and (_h(_k, _a) is None or _h(_k, _a) == _h(_k, _b)), (_k, _a, _b)
+
+SPECIAL_NAMES = ["a.b.c", "ratio.", ".hidden", "stats.v", "v", "hidden", "c", "nosuch.v", "with space", "na\u00efve.\u00e9", "", ".", "..", "b.c"] + \
+                [x for _k, _a, _b in HASH_COLLISIONS for x in (_a, _b)]
+COLLISION0 = 14            # index of the first colliding name in SPECIAL_NAMES
 SPECIAL0 = 19001
 
 
@@ -195,22 +232,23 @@ def dotted_finds(names, rng, k=6):
     return out
 
 
-def file_of(els, leaves=None):
-    """footer with the element list; when `leaves` is given, one row group with a chunk per leaf"""
+def file_of(els, leaves=None, order=None, rng=None):
+    """footer with the element list; when `leaves` is given, one row group with a chunk per leaf; `order` permutes the fields
+    of every SchemaElement and of FileMetaData (legal in the compact protocol: the tree must come out the same)"""
     se = []
     for e in els:
-        se.append(pq.schema_element(
+        se.append(pq.permute(pq.schema_element(
             name=None if e["name"] is None else name_str(e["name"]),
             type=e["type"] if e["hastype"] else None,
             type_length=e["tlen"] if e.get("tlen_present", e["tlen"] != 0) else None,
             repetition=e["rep"] if e["hasrep"] else None,
             num_children=e["nc"] if e.get("nc_present", e["nc"] != 0) else None,
             logical=None if e["logical"] is None else logical_tuple(e.get("lwire") or e["logical"]),
-            **(e.get("extras") or {})))
+            **(e.get("extras") or {})), order, rng))
     rgs = []
     if leaves is not None:
         rgs = [pq.row_group([pq.column_chunk(l[3], [name_str(l[2])], 0) for l in leaves], 0)]
-    return pq.parquet_file(pq.file_metadata(se, 0, rgs))
+    return pq.parquet_file(pq.permute(pq.file_metadata(se, 0, rgs), order if order in ("desc", "shuffle") else None, rng))
 
 
 def tree_case(root_rep, forest, rng, with_rg, extra_finds=()):
@@ -233,7 +271,8 @@ def tree_case(root_rep, forest, rng, with_rg, extra_finds=()):
                                field_id=rng.choice([None, 1, -7, 2**31 - 1]), unknown_field=rng.random() < 0.5)
     names = sorted({e["name"] for e in els})
     finds = names[:12] + [n for n in names if n >= 9000][:6] + dotted_finds(names, rng) + list(extra_finds)
-    data = file_of(els, lv if with_rg else None)
+    order = rng.choice(pq.ORDERS) if rng.random() < 0.3 else None
+    data = file_of(els, lv if with_rg else None, order, rng)
     ttxt = "%s.0[%s]" % ("-" if root_rep is None else root_rep, ";".join(tree_text(t) for t in forest))
     return "schema %s %s %s %d %s" % (data.hex(), elems_text(els), ",".join(map(str, finds)) or "-", 1 if with_rg else 0, ttxt)
 
@@ -346,6 +385,25 @@ def hostile_lists(tier):
         els.append(dict(name=depth + 1, hastype=1, type=1, tlen=0, hasrep=1, rep=0, nc=0, logical=None))
         out.append(list_case(els, [depth + 1]))
     return out
+
+
+def gen_collisions(tier, rng):
+    """sibling columns whose names collide under a 32-bit string hash, in both orders, and lookups of the absent partner"""
+    lines = []
+    for i in range(len(HASH_COLLISIONS)):
+        a, b = SPECIAL0 + COLLISION0 + 2 * i, SPECIAL0 + COLLISION0 + 2 * i + 1
+        for first, second, present in ((a, b, True), (b, a, True), (a, b, False), (b, a, False)):
+            ty, tlen, lg = leaf_payload(rng)
+            leaves = [("L", rng.randrange(3), 1, 1, 0, None), ("L", rng.randrange(3), first, ty, tlen, lg)]
+            if present:
+                leaves.append(("L", rng.randrange(3), second, 2, 0, None))
+            leaves.append(("L", 0, 2, 5, 0, None))
+            forest = leaves if rng.random() < 0.5 else [leaves[0], ("G", rng.randrange(3), 3, leaves[1:])]
+            lines.append(tree_case(None, forest, rng, with_rg=False, extra_finds=(a, b)))
+            bl = [(l[0], l[1], l[2], l[3], l[4], None) for l in leaves]       # the builder calls carry no logical type here
+            ops = ",".join("c:%d:%d:-:%d:%d" % (l[2], l[3], l[1], l[4]) for l in bl)
+            lines.append("builder %s %s -.0[%s]" % (ops, ",".join(map(str, [a, b, 1, 2])), ";".join(tree_text(t) for t in bl)))
+    return lines
 
 
 def gen_builder(tier, rng):
@@ -548,6 +606,7 @@ def run(tier):
     run_cases(rep, drv, run_, gen_random(tier, rng), "random", dist)
     run_cases(rep, drv, run_, gen_lists(tier, rng), "lists", dist)
     run_cases(rep, drv, run_, gen_builder(tier, rng), "builder", dist)
+    run_cases(rep, drv, run_, gen_collisions(tier, rng), "hash_collisions", dist)
     rep.cov["input_distribution"] = dist
     ex = tree_case(None, label(shapes(4)[9], iter((1, 2, 0, 1)), rng, Namer(rng)), rng, True)
     rep.sample({"op": "schema", "tree": ex.split()[-1], "file_hex": ex.split()[1]})
